@@ -125,11 +125,23 @@ def lake_build(targets: list[str] | None = None, timeout=3000):
 
 
 def property_theorems(pid: str) -> list[str]:
-    """Names of the theorems declared in Props/<pid>.lean (namespace <pid>)."""
+    """Fully qualified names of the theorems declared in Props/<pid>.lean (tracks nested namespaces)."""
     src = (LEAN / "AspireModel" / "Props" / f"{pid}.lean").read_text()
     src_nc = strip_lean_comments(src)
-    names = re.findall(r"^\s*(?:private\s+)?theorem\s+([A-Za-z_][A-Za-z0-9_'.]*)", src_nc, re.M)
-    return [f"{pid}.{n}" for n in names]
+    stack, names = [], []
+    for line in src_nc.split("\n"):
+        m = re.match(r"^\s*namespace\s+([A-Za-z_][A-Za-z0-9_'.]*)", line)
+        if m:
+            stack.append(m.group(1))
+            continue
+        m = re.match(r"^\s*end\s+([A-Za-z_][A-Za-z0-9_'.]*)\s*$", line)
+        if m and stack and stack[-1] == m.group(1):
+            stack.pop()
+            continue
+        m = re.match(r"^\s*(?:@\[[^\]]*\]\s*)?(?:private\s+|protected\s+)?theorem\s+([A-Za-z_][A-Za-z0-9_'.]*)", line)
+        if m:
+            names.append(".".join(stack + [m.group(1)]))
+    return names
 
 
 def strip_lean_comments(src: str) -> str:
